@@ -125,6 +125,8 @@ pub fn c07_alphabet() -> Vec<(&'static str, Sym)> {
         ("announce B h1 explicit (same port number)", Sym::Fresh(1, "ann 1 1111 valid")),
         ("announce v6 h1 explicit", Sym::Fresh(2, "ann 1 6666 valid")),
         ("announce A h2 explicit", Sym::Fresh(0, "ann 2 1111 valid")),
+        ("announce B h1 forged token (refused)", Sym::Cmd(1, "ann 1 2323 random")),
+        ("announce v6 h1 19-byte token (refused)", Sym::Cmd(2, "ann 1 6667 short")),
         ("get_peers h1 from v4", Sym::Cmd(1, "gp 1 -")),
         ("get_peers h1 from v6", Sym::Cmd(2, "gp 1 both")),
         ("advance 12h", Sym::Advance(43_200_000)),
